@@ -333,12 +333,13 @@ fn canon_case(h: &Hist) -> String { format!("{}|{}", h.air, h.net.log.iter().map
 pub fn run_property(prop: &str, ctx: &mut Ctx, rep: &mut Report) {
     let mut rng = Rng::new(ctx.seed ^ fnv(prop));
     let (quick, thorough) = match prop { "C07" => (60, 1500), "C03" => (80, 2500), "C20" => (80, 2500), _ => (150, 6000) };
-    let pl = plan(ctx, quick, thorough);
+    let mut pl = plan(ctx, quick, thorough);
+    if matches!(prop, "C10" | "C12" | "C13" | "C09" | "C07") { pl.streams_every = 1; }
     rep.rule = format!("case = one step (run) of a simulated honest history of a generated script over 3-5 peers (random delivery order, duplicated deliveries, late/batched call results{}); \
         non-trivial = history with at least 2 runs; distinct by hash of (script, schedule of (peer,event,code))", if prop == "C02" { ", injected faulty runs" } else { "" });
     let observer = Peer::new("observer");
     for hi in 0..pl.histories {
-        let streams = hi % pl.streams_every == 1;
+        let streams = pl.streams_every == 1 || hi % pl.streams_every == 1;
         let budget = 6 + rng.below(pl.budget); let mut h = gen_history(&mut rng, streams, pl.fragment, budget, pl.max_steps);
         if prop == "C02" || prop == "C06" {
             // continue the history with injected faults and more honest steps
@@ -389,11 +390,11 @@ pub fn run_property(prop: &str, ctx: &mut Ctx, rep: &mut Report) {
             };
             if let Some(why) = fail { if first_fail.is_none() { first_fail = Some((why, step_json(&h.net, st))); } }
         }
-        if prop == "C05" && first_fail.is_none() {
+        if (prop == "C05" || prop == "C06") && first_fail.is_none() {
             // deliver everything that is still pending so that every returned result has been handed back
             let mut r2 = rng.fork();
             let mut k = 0; while k < 200 && h.net.random_step(&mut r2, (0, 1)) { k += 1; }
-            if let Some(why) = check_c05_end(&h) { first_fail = Some((why, json!({"air": h.air, "history_seed": h.seed, "steps": h.net.log.iter().map(|s| step_json(&h.net, s)).collect::<Vec<_>>() }))); }
+            if let Some(why) = check_c05_end(&h).map(|w| if prop == "C06" { format!("a result supplied under a request id did not reach the call that requested it: {w}") } else { w }) { first_fail = Some((why, json!({"air": h.air, "history_seed": h.seed, "steps": h.net.log.iter().map(|s| step_json(&h.net, s)).collect::<Vec<_>>() }))); }
         }
         rep.evaluations -= n_steps as u64; // count below through `case`
         for _ in 0..n_steps.max(1) - 1 { rep.evaluations += 1; }
